@@ -41,6 +41,15 @@ def structured(fam, rng):
     if n == 12:
         out.append([rng.randrange(Q) for _ in range(6)] + [0] * 6)        # Fq6
         out.append([0] * 6 + [rng.randrange(Q) for _ in range(6)])
+    # special-value patterns: every coefficient independently 0, 1, -1 or random (shortcuts keyed on one coefficient)
+    for _ in range(60 if n <= 2 else 90):
+        out.append([rng.choice([0, 1, Q - 1, rng.randrange(Q), rng.randrange(Q)]) for _ in range(n)])
+    if n == 2:
+        for a in (0, 1, Q - 1):
+            for b in (0, 1, Q - 1):
+                out.append([a, b])
+            out.append([a, rng.randrange(Q)])
+            out.append([rng.randrange(Q), a])
     # zero patterns
     masks = range(1 << n) if n <= 6 else [rng.getrandbits(n) for _ in range(48)] + [(1 << n) - 1 - (1 << i) for i in range(n)]
     for mk in masks:
